@@ -118,7 +118,7 @@ func ruleErrHolderShared(c *Ctx, rule string) {
 				if mi, isMI := v.(*ssa.MakeInterface); isMI {
 					v = mi.X
 				}
-				_, isParam := v.(*ssa.Parameter)
+				isParam := handedIn(fn, v)
 				c.Check(isParam, rule, FnName(fn)+": ErrHolder of a new indexing context", p.Pos(st.Pos()), "the holder handed in by the caller is shared by every level of the chain",
 					"the new indexing context records into "+describeValue(st.Val)+" instead of the holder handed in: what a constraint of another level (the parent store's unique index, a foreign key) refuses never reaches the holder Create/Update return, so the operation reports success and commits")
 			}
